@@ -195,7 +195,7 @@ SPEC = {
     "pid": "C08",
     "coq_targets": ["Props/C08.vo", "Extract/ExC08.vo"],
     "bin": "c08",
-    "sizes": {"quick": 150000, "thorough": 3000000},
+    "sizes": {"quick": 400000, "thorough": 4000000},
     "search_n": 400000,
     "runner_timeout": 3000,
     "rule": ("K = reproducers of the repaired crash/hang inputs (col_count/pk_count = i32::MAX, 4 GiB body length + EOF, "
